@@ -42,6 +42,11 @@ pub fn exec(db: &dyn IndexDatabase, range: FileRange) -> Option<Vec<InlayHint>> 
     let index = db.index();
     let symbol_map = index.symbol_map();
 
+    // the interval map rejects empty query ranges
+    if range.range.is_empty() {
+        return Some(Vec::new());
+    }
+
     let Some(iter) = symbol_map.iter_symbols_in_range(range) else {
         tracing::info!("no classes found in range: {range:?}");
         return None;
